@@ -267,6 +267,26 @@ def chain_sweep(tier, shard, nshards):
                     i += 1
 
 
+def homogeneous_sweep(tier, shard, nshards):
+    """arrays of 1..40 items of one numeric tag holding the tag's boundary values"""
+    vals = {'b': [-128, -1, 0, 127], 'B': [0, 127, 128, 255],
+            's': [-32768, -1, 255, 32767], 'u': [0, 32767, 32768, 65535],
+            'I': [-2 ** 31, -1, 65536, 2 ** 31 - 1],
+            'i': [0, 2 ** 31 - 1, 2 ** 31, 3000000000, 2 ** 32 - 2, 2 ** 32 - 1],
+            'l': [-2 ** 63, -1, 2 ** 32, 2 ** 63 - 1], 'L': [0, 2 ** 32, 2 ** 63 - 1],
+            't': [0, 1, 2, 255], 'f': [0.0, -1.5, 3.0e38], 'd': [0.1, -1e300, 5e-324],
+            'T': [0, 2 ** 32 - 1, 2 ** 32, 1700000000000]}
+    i = 0
+    for tag, vs in vals.items():
+        for n in (1, 2, 7, 8, 9, 15, 16, 17, 40):
+            items = [[tag, vs[k % len(vs)]] for k in range(n)]
+            for where in ('value', 'in-table'):
+                if i % nshards == shard:
+                    yield {'pos': 'value', 'v': ['A', items]} if where == 'value' else \
+                        {'pos': 'table', 'v': [['arr', ['A', items]], ['z', ['V']]]}
+                i += 1
+
+
 def check_any(case):
     return check_frame(case) if 'kind' in case else check_value(case)
 
@@ -321,6 +341,10 @@ COMPONENTS = [
               describe='well-formed tables, decimals and frames decoded as the very first '
                        'calls of a pristine process by 2-3 threads, one of them 0..59 '
                        'traced lines ahead; results vs a fresh interpreter'),
+    Component('homogeneous-arrays', check_value, cases=homogeneous_sweep,
+              nontrivial=lambda c: True, shards={'quick': 4, 'thorough': 4},
+              describe='arrays of 1..40 items of one numeric tag holding that tag\'s '
+                       'boundary values (what a packed-array fast path would see)'),
     Component('chains', check_any, cases=chain_sweep,
               nontrivial=lambda c: True, exhaustive=True,
               classes=lambda c: ['where=' + c.get('kind', 'value')],
